@@ -85,6 +85,8 @@ type c11Call struct {
 	class  string
 }
 
+var c11Opened int
+
 type c11Sess struct {
 	s        *Session
 	mc       *rig.MemConn
@@ -95,7 +97,13 @@ type c11Sess struct {
 }
 
 func c11Open(c *Ctx, splitLen int) *c11Sess {
-	s := NewSession(SessionOpts{Flood: true, Mutate: func(cfg *client.Config) { cfg.SplitLen = splitLen }})
+	c11Opened++
+	s := NewSession(SessionOpts{Flood: true, Mutate: func(cfg *client.Config) {
+		cfg.SplitLen = splitLen
+		if c11Opened%2 == 0 {
+			cfg.Timeout = 0 // "wait indefinitely" for the dial; must not matter for sending
+		}
+	}})
 	mc, err := s.Connect()
 	if err != nil {
 		c.R.Inconcl("connect: " + err.Error())
